@@ -139,13 +139,23 @@ pub struct FaultPlan {
     /// 0-based occurrence among matching operations
     pub nth: usize,
     pub kind: FaultKind,
+    /// the fault persists for this many consecutive matching operations (1 = a single fault)
+    #[serde(default = "one")]
+    pub repeat: usize,
     #[serde(skip)]
     pub seen: usize,
     #[serde(skip)]
     pub fired: bool,
+    /// how many operations have failed so far
+    #[serde(skip)]
+    pub fires: usize,
     /// only count operations once armed (the harness arms after the prefix)
     #[serde(skip)]
     pub armed: bool,
+}
+
+fn one() -> usize {
+    1
 }
 
 impl FaultPlan {
@@ -155,10 +165,17 @@ impl FaultPlan {
             class,
             nth,
             kind,
+            repeat: 1,
             seen: 0,
             fired: false,
+            fires: 0,
             armed: true,
         }
+    }
+
+    pub fn repeated(mut self, repeat: usize) -> Self {
+        self.repeat = repeat.max(1);
+        self
     }
 
     pub fn matches(op: FaultOp, class: FileClass, ev: &IoEvent) -> bool {
@@ -185,15 +202,16 @@ impl FaultPlan {
     }
 
     pub fn decide(&mut self, ev: &IoEvent) -> TapAction {
-        if self.fired || !self.armed || !Self::matches(self.op, self.class, ev) {
+        if !self.armed || !Self::matches(self.op, self.class, ev) {
             return TapAction::Proceed;
         }
         let n = self.seen;
         self.seen += 1;
-        if n != self.nth {
+        if n < self.nth || n >= self.nth + self.repeat {
             return TapAction::Proceed;
         }
         self.fired = true;
+        self.fires += 1;
         match self.kind {
             FaultKind::Errno(e) => TapAction::Fail(io::Error::from_raw_os_error(e)),
             FaultKind::Short(spec, e) => {
